@@ -136,6 +136,16 @@ impl Scenario for C08 {
                     p.faults.push(format!("content-{k}"));
                 }
             }
+            11 if rng.chance(1, 5) => {
+                // a line longer than 1 MiB
+                let n = 1_100_000 + rng.below(200_000);
+                let text = crate::corpus::model_text(&p.data);
+                let mut lines: Vec<String> = text.split('\n').map(str::to_string).collect();
+                let at = rng.below(lines.len() + 1);
+                lines.insert(at, format!("Tags:{}", "ab ".repeat(n / 3)));
+                p.data = encode_text(&lines.join("\n"), enc);
+                p.faults.push("content-line-longer-than-1MiB".into());
+            }
             9 => {
                 let mut m = rng.pick(crate::corpus::MAGICS).to_vec();
                 m.extend_from_slice(&p.data);
@@ -168,6 +178,13 @@ impl Scenario for C08 {
             _ => {}
         }
         plan_transport(&mut rng, &mut p, false);
+        if rng.chance(1, 1500) && p.data.len() > 2 {
+            // real-OS, real-time probe (rare: each costs 120 ms): a pipe whose writer pauses in the middle
+            p.set("t", crate::transport::T_FROM_PATH_SLOWPIPE);
+            p.set("split", (1 + rng.below(p.data.len() - 1)) as i64);
+            p.sched.clear();
+            p.eintr.clear();
+        }
         p
     }
     fn execute(&self, plan: &Plan, st: &mut Stats) -> Result<(), Violation> {
@@ -200,7 +217,7 @@ impl Scenario for C08 {
         let t = plan.get("t");
         match t {
             T_SIM => !plan.sched.is_empty() || !plan.eintr.is_empty(),
-            crate::transport::T_BUFREADER | crate::transport::T_CHAIN | crate::transport::T_FROM_PATH | crate::transport::T_FROM_PATH_PIPE => true,
+            crate::transport::T_BUFREADER | crate::transport::T_CHAIN | crate::transport::T_FROM_PATH | crate::transport::T_FROM_PATH_PIPE | crate::transport::T_FROM_PATH_SLOWPIPE => true,
             _ => false,
         }
     }
@@ -216,6 +233,8 @@ impl Scenario for C08 {
             "probe.boundary-inside-utf8-sequence",
             "transport.from_path-real-fs",
             "transport.from_path-pipe-via-procfs",
+            "transport.from_path-slow-pipe-two-parts",
+            "realfs.same-path-decoy-decoded-first",
             "transport.chain-of-slices",
         ]
     }
